@@ -11,6 +11,7 @@ NEUTRALS = []
 
 # changes made by sub-agents that were given only the property text (see /verif/seeded/<id>/): each must stay reported
 SEEDED = [
+    {'name': 'seeded change C20-r3', 'seed': 'C20-r3', 'expect': '|F1|'},
     {'name': 'seeded change C20-r2', 'seed': 'C20-r2', 'expect': '|F1|'},
     {'name': 'seeded change C20', 'seed': 'C20', 'expect': '|F1|'},
 ]
